@@ -117,6 +117,14 @@ class QuicPacketBuilder:
         return self._packet_number
 
     @property
+    def datagram_capacity(self) -> int:
+        """
+        Returns the maximum size of the current datagram, which the
+        anti-amplification limit may reduce.
+        """
+        return self._buffer_capacity
+
+    @property
     def remaining_buffer_space(self) -> int:
         """
         Returns the remaining number of bytes which can be used in
